@@ -8,6 +8,9 @@ the kernel (`decide +kernel`): these are proofs over a finite quantifier, not sa
 namespace QRV.Lemmas.GF
 open QRV.Model.GF QRV.Spec.GF QRV.Lemmas
 
+/-- the tables have exactly 256 entries (Go: `[256]Element`, `[256]int`) -/
+theorem table_lengths : Gen.GF.expLen = 256 ∧ Gen.GF.logLen = 256 := by decide
+
 theorem exp_zero : expT 0 = 1 := by decide +kernel
 
 theorem exp_succ : ∀ k < 255, expT (k + 1) = xtime (expT k) := by
